@@ -15,6 +15,7 @@ from hypothesis import strategies as st
 
 from .. import strategies as S
 from ..common import cedge, dc, dedupe, diff_obs, permuted
+from ..common import nodes_with_metadata
 from ..engine import Clause, Violation, require
 from ..oracles.partition import components
 
@@ -301,7 +302,7 @@ def observe(h, directed):
     o["get_nodes"] = Counter(nodes)
     o["num_nodes"] = h.num_nodes()
     o["get_node_metadata"] = {n: dc(h.get_node_metadata(n)) for n in set(nodes)}
-    o["get_nodes(metadata=True)"] = {n: dc(v) for n, v in h.get_nodes(metadata=True).items()}
+    o["get_nodes(metadata=True)"] = {n: dc(v) for n, v in nodes_with_metadata(h).items()}
     edges = [canon_lib(e, directed) for e in h.get_edges()]
     o["get_edges"] = Counter(edges)
     o["num_edges"] = h.num_edges()
@@ -549,8 +550,6 @@ def check_filter(case, ctx):
                      [(node_set, keys)], ctx, trace)
     _must_raise(lambda: h.get_edges(order=1, size=2, subhypergraph=True), ValueError,
                 "get_edges(order=1, size=2, subhypergraph=True)")
-    _must_raise(lambda: h.get_edges(keep_isolated_nodes=True), ValueError,
-                "get_edges(keep_isolated_nodes=True) without subhypergraph=True")
     ctx.nontrivial(good and proper)
 
 
